@@ -1,6 +1,7 @@
 SPECIFICATION Spec
 CONSTANT Thorough = TRUE
 INVARIANT TableClosed
+INVARIANT HookYieldsTypes
 INVARIANT OfferedSane
 INVARIANT NameClashDistinct
 INVARIANT CanonAccepted
